@@ -8,6 +8,7 @@
   each selected rule's node passed through its transformer.
 -/
 import PegtlVerif.Lemmas.Tree
+import PegtlVerif.Lemmas.SpanTree
 
 namespace Pegtl.C12
 
@@ -129,6 +130,44 @@ theorem C12_selected_node (cls : Nat → Cls) (i : Nat) (a : AMode) (m : RMode) 
     specT cls (.mk i a m kc 1 b e kids) = (0, ⟨i, b, e, true⟩) :: (specL cls kids).lift := by
   simp [specT, h, transformNode, mkNode]
 
+/-! ### children contained in and ordered within their parent -/
+
+/-- **Every invocation tree is well-chained.**  The trace of a run is the event list of one invocation tree in which,
+    below every successful invocation of a rule that does not re-read input (every kind except `at`, `not_at` and
+    `rematch` with inner rules), the successful sub-invocations are ordered — each starts at or after the end of the
+    previous one — and lie within the invocation's own span (`wellT`, `chainOK`).  Any grammar, actions, modes, input. -/
+theorem C12_invocations_chained (cx : Ctx) (n i : Nat) (a : AMode) (m : RMode) (env : Env) (st : St) (r : Ret)
+    (h : run cx n i a m env st = some r) :
+    ∃ t : Invoc, proj r.raw = t.flat ∧ wellT (rrOf cx.g) t = true ∧ t.res = r.res.code ∧
+      t.b = cx.rep st.cur ∧ t.e = cx.rep r.st.cur := by
+  obtain ⟨t, ht, hw, hres, hb, he, -⟩ := run_span cx n i a m env st r h
+  exact ⟨t, ht, hw, hres, hb, he⟩
+
+/-- **Containment and order in the parse tree.**  For a grammar none of whose rules re-reads input (no `at`, `not_at`,
+    `rematch< R, S... >`) and without `match()`-carrying action classes: the tree `parse_tree::parse` returns is the
+    pre-order of rose trees (`flatTs trees`) in which, below every node, the children's spans are ordered and contained
+    in the node's span (`nestedTs`), the roots themselves being ordered within the span the parse consumed — for every
+    selector assignment (store / remove_content / fold_one / discard_empty), input, action attachment and mode. -/
+theorem C12_children_contained (cx : Ctx) (hnw : NoWraps cx) (hrr : ∀ i, rrOf cx.g i = false) (selMap : Nat → Option Sel)
+    (n i : Nat) (a : AMode) (m : RMode) (r : Ret) (h : parseTop cx n i a m = some r) (hok : r.res = .ok) :
+    ∃ trees : List TTree, buildTree (clsOf cx.g selMap) true r.raw = some (flatTs trees) ∧ nestedTs trees = true ∧
+      chainTs (cx.rep cx.start.cur).pos trees (cx.rep r.st.cur).pos = true := by
+  have inv := C12_leaf_optimisation_invisible cx hnw selMap n i a m r h
+  simp only [hok, decide_true] at inv
+  obtain ⟨t, ht, hw, hres, hb, he, -⟩ := run_span cx n i a m {} cx.start r h
+  have hl' : leafOKT (clsPlain cx.g selMap) t = true :=
+    noLeafT _ (by intro j; simp only [clsPlain]; split <;> simp) t
+  have hbuild : buildTree (clsPlain cx.g selMap) true r.raw = some (specT (clsPlain cx.g selMap) t) := by
+    unfold buildTree
+    simp only [if_true]
+    rw [runTree_proj, ht, run_specT _ t ⟨default, []⟩ [] hl']
+    simp
+  obtain ⟨hn, hc⟩ := nested_of_wellT (rrOf cx.g) hrr (clsPlain cx.g selMap) t hw
+  refine ⟨specTreeT (clsPlain cx.g selMap) t, ?_, hn, ?_⟩
+  · rw [inv, hbuild, specT_flat]
+  · have := hc (by rw [hres, hok]; rfl)
+    rwa [hb, he] at this
+
 /-! ### the built-in transformers change the tree only as documented -/
 
 theorem C12_remove_content (n : TNode) (kids : Forest) :
@@ -172,8 +211,13 @@ def exG : Grammar := #[
 def exSel : Nat → Option Sel := fun i => if i = 0 ∨ i = 1 ∨ i = 3 ∨ i = 5 then some .store else if i = 2 then some .store else none
 
 /-- "aca": `n2` matches `a` (node for n5!) and then fails: that node must not survive; `n3` matches "ac";
-    `at< n5 >` matches the second `a` with actions disabled: its node is in the tree. -/
-example : (parseTop { g := exG, inp := #[97, 99, 97] } 10 0 .action .required).bind
+    `at< n5 >` matches the second `a` with actions disabled: its node is in the tree.
+
+    **Containment fails below a look-ahead**: that last node (rule 5, bytes [2,3)) is a child of the root node (rule 0,
+    bytes [0,2)) — the property counts matches inside a succeeding and-predicate as part of the tree, and such a match
+    lies beyond what its parent consumed.  `C12_children_contained` therefore excludes rules that re-read input
+    (KNOWN-FINDING F20 of the check). -/
+theorem C12_containment_fails_below_lookahead : (parseTop { g := exG, inp := #[97, 99, 97] } 10 0 .action .required).bind
     (fun r => buildTree (clsOf exG exSel) (decide (r.res = .ok)) r.raw) =
     some [(0, ⟨0, ⟨0, 1, 1⟩, ⟨2, 1, 3⟩, true⟩),
           (1, ⟨1, ⟨0, 1, 1⟩, ⟨2, 1, 3⟩, true⟩),
